@@ -1,1 +1,104 @@
+(* C03/Proofs.v — invariants of the PPPoE gate model (repaired variant, either FSM table). *)
 From OV Require Import Common.Base C03.Model.
+
+Definition quietb (f : fsm) : bool :=
+  match fs f with Initial | Starting | Closed => true | _ => false end.
+Definition is_opened (f : fsm) : bool := match fs f with Opened => true | _ => false end.
+Definition is_auth (p : phase) : bool := match p with PAuth => true | _ => false end.
+
+(* relation between a session and its monitor *)
+Definition Rb (s : sess) (mn : mon) : bool :=
+  implb (in_net (ph s)) (mok mn)
+  && implb (negb (in_net (ph s))) (quietb (ipcp s) && quietb (ip6cp s))
+  && match pend s with
+     | Some k => negb (live s) || (match mcur mn with Some k' => Nat.eqb k k' | None => false end && is_auth (ph s))
+     | None => true
+     end
+  && implb (in_net (ph s) || is_auth (ph s)) (is_opened (lcp s))
+  && (live s || negb (in_net (ph s))).
+
+(* the handler's outputs are accepted by the monitor and the relation holds afterwards *)
+Definition check (m : mach) (mn0 : mon) : bool :=
+  match mon_l (rev (mo m)) mn0 with
+  | Some mn' => Rb (ms m) mn'
+  | None => false
+  end.
+
+
+(* ---- structural facts (full strength: every state, every variant) ---- *)
+
+(* dispatcher gate: outside the Network/Open phases an IPCP, IPv6CP or IPv6 frame changes nothing and
+   produces no output *)
+Lemma ncp_frames_gated : forall v i m c,
+  in_net (ph (ms m)) = false ->
+  handle_frame v i (FrIpcp c) m = m /\ handle_frame v i (FrIp6cp c) m = m /\
+  handle_frame v i FrRs m = m /\ handle_frame v i FrNs m = m.
+Proof. intros v i m c H. unfold handle_frame. rewrite H. auto. Qed.
+
+(* PAP/CHAP credentials are taken only in the Authenticate phase *)
+Lemma auth_frames_gated : forall v i m,
+  ph (ms m) <> PAuth ->
+  handle_frame v i FrPapReq m = m /\ handle_frame v i FrChapResp m = m.
+Proof. intros v i m H. unfold handle_frame. destruct (ph (ms m)); try tauto; auto. Qed.
+
+(* repaired variant: an AAA answer reaches a session only through a non-empty request id that the
+   session has outstanding *)
+Lemma aaa_needs_pending : forall v k s,
+  vrep v = true -> pend_matches v k s = true -> live s = true /\ pend s = Some k /\ k <> 0.
+Proof.
+  intros [rep rfc] k s Hv H. cbn in Hv. subst rep. unfold pend_matches in H. cbn in H.
+  destruct (live s); cbn in H; try discriminate. destruct k; destruct (pend s) as [k'|]; cbn in H; try discriminate.
+  change (Nat.eqb (S k) k' = true) in H. apply Nat.eqb_eq in H. subst. repeat split; auto.
+Qed.
+Lemma aaa_unmatched_ignored : forall v st k a,
+  find_idx (pend_matches v k) (sl st) 0 = None -> step v st (EvAAA k a) = (st, []).
+Proof. intros. cbn. rewrite H. reflexivity. Qed.
+
+(* repaired variant: LCP leaving Opened forgets the outstanding request and leaves both NCPs unable to send *)
+Lemma lcp_down_resets : forall v i m,
+  vrep v = true ->
+  let m' := on_lcp_down v i m in
+  pend (ms m') = None /\ pty (ms m') = PtNone /\ ph (ms m') = PEstablish /\
+  quietb (ipcp (ms m')) = true /\ quietb (ip6cp (ms m')) = true.
+Proof.
+  intros [rep rfc] i [s n f q o] Hv. cbn in Hv. subst rep.
+  destruct s as [lv g p lf [cf cr] [vf vr'] ac rt pe pt io vo sa c4 a4 k4 al].
+  unfold on_lcp_down, ncp_apply, fsm_down, quietb. cbn.
+  destruct cf; cbn; destruct vf; cbn; auto.
+Qed.
+
+(* ---- RADIUS provider decision + AAA component mapping ---- *)
+Lemma radius_allow_iff : forall fb r, aaa_allowed fb r = true <-> fb = false /\ r = SrvAccept.
+Proof. intros [] []; cbn; split; intros H; try discriminate; try tauto; destruct H; try discriminate; auto. Qed.
+
+(* ---- bounded sweep (supplementary; the bound is in the statement) ---- *)
+Definition ev_alphabet : list event :=
+  let cf := [FCreq QGood; FCreq QNak; FCreq QRej; FCreqBad; FCack true; FCack false; FCnak true; FCnak false;
+             FCrej true; FCrej false; FTreq; FTack; FCdrej; FUnk] in
+  let fr := map FrLcp cf ++ map FrLcpX [XEchoReq; XEchoRep; XDiscReq; XPrejIpcp; XPrejIp6cp; XPrejOther; XCrejAuth; XCnakPap; XCnakChap]
+            ++ map FrIpcp cf ++ map FrIp6cp cf
+            ++ [FrPapReq; FrPapBad; FrPapOther; FrChapResp; FrChapBad; FrChapOther; FrRs; FrNs; FrIp6Junk; FrUnkProto; FrShort] in
+  map (EvFrame 0) fr
+  ++ flat_map (fun k => map (EvAAA k) [AAcc; AAccIp; ARej; AErr]) [0; 1; 2; 3]
+  ++ map (EvTimer 0) [TLcp; TIpcp; TIp6cp; TChap] ++ [EvPadt 0; EvDead 0; EvSbOk; EvOpen 0].
+
+Definition mon_ok_after (v : vr) (pre evs : list event) : bool :=
+  match mon_run 0 (snd (run v (init 2) (pre ++ evs))) mon0 with Some _ => true | None => false end.
+
+Definition ev_prefixes : list (list event) :=
+  let o := [EvOpen 0] in
+  let up := o ++ [EvFrame 0 (FrLcp (FCreq QGood)); EvFrame 0 (FrLcp (FCack true))] in
+  let pend := up ++ [EvFrame 0 FrChapResp] in
+  let net := pend ++ [EvAAA 1 AAcc] in
+  let ncp := [EvFrame 0 (FrIpcp (FCreq QGood)); EvFrame 0 (FrIpcp (FCack true));
+              EvFrame 0 (FrIp6cp (FCreq QGood)); EvFrame 0 (FrIp6cp (FCack true))] in
+  let opn := net ++ ncp in
+  let ren := opn ++ [EvFrame 0 (FrLcp (FCreq QGood))] in
+  [ []; o; up; pend; net; opn; ren; pend ++ [EvFrame 0 (FrLcp (FCreq QGood))];
+    ren ++ [EvFrame 0 (FrLcp (FCack true)); EvFrame 0 FrChapResp]; pend ++ [EvAAA 1 ARej]; opn ++ [EvPadt 0] ].
+
+Definition sweep2 (v : vr) : bool :=
+  forallb (fun pre => forallb (fun e1 => forallb (fun e2 => mon_ok_after v pre [e1; e2]) ev_alphabet) ev_alphabet) ev_prefixes.
+
+Lemma sweep2_repaired : sweep2 (mkV true false) = true /\ sweep2 (mkV true true) = true.
+Proof. split; vm_compute; reflexivity. Qed.
